@@ -372,7 +372,7 @@ func c10Requests(ids [3]string, cids []string) []c10Req {
 // ---------- run ----------
 
 type c10Stats struct {
-	worlds, requests, identical, hidden, steps, attempts, subs int64
+	worlds, requests, identical, hidden, steps, attempts, subs, skipped int64
 	kinds                                               sync.Map
 	outcomes                                            sync.Map
 }
@@ -392,6 +392,11 @@ func runC10(args []string) int {
 	depth := 1
 	if thorough {
 		depth = 2
+		// depth 2 builds ~150 000 worlds with an ACP engine each; the engine does not give all of its
+		// memory back, so the work is cut into shards run one after the other in fresh processes
+		if os.Getenv("VERIF_SHARD") == "" && os.Getenv("VERIF_C10_MAX") == "" {
+			return rep.RunSharded("C10", "exploration", 12)
+		}
 	}
 	if v := os.Getenv("VERIF_C10_DEPTH"); v != "" { // development aid
 		fmt.Sscan(v, &depth)
@@ -456,8 +461,11 @@ func runC10(args []string) int {
 		cases = sub
 		r.Coverage["development_subset"] = len(cases)
 	}
-	for _, c := range cases {
-		ch <- c
+	si, sn := rep.Shard()
+	for i, c := range cases {
+		if i%sn == si {
+			ch <- c
+		}
 	}
 	close(ch)
 	wg.Wait()
@@ -474,6 +482,7 @@ func runC10(args []string) int {
 	r.Coverage["history_steps"] = st.steps
 	r.Coverage["requester_write_attempts"] = st.attempts
 	r.Coverage["requests_in_states_with_hidden_documents"] = st.hidden
+	r.Coverage["states_without_twin_comparison_because_visibility_changed_after_a_requester_write"] = st.skipped
 	r.Coverage["request_kinds"] = nk
 	r.Coverage["subscription_scripts"] = st.subs
 	r.Coverage["history_depth_beyond_layout"] = depth
@@ -568,8 +577,12 @@ func c10CheckState(r *rep.Run, st *c10Stats, cfg c10Cfg, anon bool, steps []c10S
 	defer real.close()
 	m := &c10Model{Anon: anon}
 	atomic.AddInt64(&st.worlds, 2)
+	var readableAtAttempts [][3]bool
 	for si, s := range steps {
 		isAttempt := strings.HasPrefix(s.Kind, "req-")
+		if isAttempt {
+			readableAtAttempts = append(readableAtAttempts, [3]bool{m.canRead(0), m.canRead(1), m.canRead(2)})
+		}
 		var before map[string]string
 		if isAttempt && si == len(steps)-1 {
 			before = c10OwnerDump(real)
@@ -599,6 +612,17 @@ func c10CheckState(r *rep.Run, st *c10Stats, cfg c10Cfg, anon bool, steps []c10S
 	for i := range m.Docs {
 		if m.Docs[i].Exists && !m.canRead(i) {
 			hiddenAny = true
+		}
+	}
+	// The twin projects the final visibility onto the whole history. That is only the right
+	// reference when the requester's own writes happened under that same visibility: a document the
+	// requester could read when it attempted a write legitimately influenced that attempt (e.g. an
+	// update by filter fails as a whole on a readable document it may not update).
+	final := [3]bool{m.canRead(0), m.canRead(1), m.canRead(2)}
+	for _, r := range readableAtAttempts {
+		if r != final {
+			atomic.AddInt64(&st.skipped, 1)
+			return nil
 		}
 	}
 	twin, _, err := c10Build(cfg, anon, steps, func(i int) bool { return m.canRead(i) }, real.ids)
